@@ -245,6 +245,8 @@ PROPS["C15"] = {
          "thorough": {"params": "stmts=3,writers=2,retry=1,nulls=0,ties=1,shape=1,extra=0", "workers": 16, "timeout": 7200}},
         {"pkg": ".", "dir": "s3db", "entry": "VerifH_C02_history", "tag": "-upd-upd-del",
          "quick": {"params": "stmts=4,writers=2,shape=1,nulls=0", "workers": 16, "timeout": 1200}},
+        {"pkg": "sqlite", "dir": "sqlite", "entry": "VerifH_C15_failed_begin", "extra": [("s3db_export", ".")], "no_native": True, "reach": ["end", "begin-refused"],
+         "quick": {"workers": 2, "timeout": 600}},
         {"pkg": "sqlite", "dir": "sqlite", "entry": "VerifH_C15_conn", "extra": [("s3db_export", ".")], "no_native": True,
          "quick": {"params": "steps=4", "workers": 16, "timeout": 1800},
          "thorough": {"params": "steps=5", "workers": 16, "timeout": 7200}},
